@@ -33,7 +33,7 @@ Steps:
 1. Read the relevant code in {wt}/cohdl to understand the mechanism behind the property.
 2. Run the test-suite once on the unmodified tree and record the passing set.
 3. Make the change; re-run the test-suite; confirm the same 66 tests pass.
-4. Write demo.py; confirm: with change -> non-zero exit; after "git -C {wt} stash" -> exit 0; then "git -C {wt} stash pop".
+4. Write demo.py; confirm: with change -> non-zero exit; after reverting your change with "git -C {wt} diff > /tmp/p_{id}.diff; git -C {wt} apply -R /tmp/p_{id}.diff" -> exit 0; then re-apply it with "git -C {wt} apply /tmp/p_{id}.diff" (do NOT use git stash: the stash is shared between all worktrees of the repository and other agents work in parallel).
 5. Write these files into {out}/ :
    - patch.diff  (output of "git -C {wt} diff"; must apply to the worktree's original commit with git apply)
    - demo.py     (run as: PYTHONPATH=<tree> /venv/bin/python demo.py)
